@@ -346,12 +346,15 @@ def obsRange (s : EncSt) (o : EncObs) : Option String :=
   else none
 
 /-- Monitored contract of an `opus_encode(st, pcm, frame_size, data, out_data_bytes)` call that
-    returned `ret`, given the fields observed afterwards.  `none` = consistent with the model. -/
-def encodeContract (s : EncSt) (frameSize outDataBytes ret : Int) (o : EncObs) : Option String :=
+    returned `ret` (`fmt`: 0 = opus_encode, 1 = opus_encode24, 2 = opus_encode_float), given the fields observed
+    afterwards.  `none` = consistent with the model. -/
+def encodeContract (s : EncSt) (frameSize outDataBytes ret : Int) (o : EncObs) (fmt : Nat := 0) : Option String :=
   let fsel := frameSizeSelect frameSize s.variableDuration s.fs
   if fsel ≤ 0 then
-    -- opus_encode (:2531-2536) returns before touching the state
-    if ret ≠ -1 then some "ret" else if o ≠ encObserve s then some "state-changed" else none
+    -- opus_encode / opus_encode24 (fmt 0 / 1) return OPUS_BAD_ARG before touching the state; opus_encode_float
+    -- (fmt 2, float build) hands the -1 to opus_encode_native, which clears rangeFinal before it refuses (:1156-1161)
+    if ret ≠ -1 then some "ret"
+    else if o ≠ (if fmt = 2 then { encObserve s with rangeFinal := 0 } else encObserve s) then some "state-changed" else none
   else match entryError s.toDSt fsel outDataBytes with
   | some e =>
     if ret ≠ e.code then some "ret"
